@@ -20,6 +20,11 @@ _real_open = io.open
 _real_mkdir = os.mkdir
 _real_replace = os.replace
 _real_unlink = os.unlink
+_real_rename = os.rename
+_real_remove = os.remove
+_real_osopen = os.open
+_real_fsync = os.fsync
+_real_osclose = os.close
 
 
 def dir_snapshot(root: str) -> dict:
@@ -197,16 +202,66 @@ class Interposer:
             else:
                 _real_unlink(path, *a, **kw)
 
-        self._saved = (io.open, builtins.open, os.mkdir, os.replace, os.unlink)
+        # further file-system entry points the code under check does not use today: were it to start using one (a rename through
+        # os.rename / shutil.move, a descriptor-level open, an fsync) each call is an operation boundary and a fault point like the others
+        fds: dict = {}
+
+        def w_rename(src: Any, dst: Any, *a: Any, **kw: Any) -> None:
+            if ctl.watched(src) or ctl.watched(dst):
+                ctl.point('rename', f'{ctl.rel(src)}->{ctl.rel(dst)}')
+                ctl.note_touch('rename', ctl.rel(src))
+                _real_rename(src, dst, *a, **kw)
+                ctl.owners.pop(ctl.rel(src), None)
+                ctl.done('rename', ctl.rel(dst))
+            else:
+                _real_rename(src, dst, *a, **kw)
+
+        def w_remove(path: Any, *a: Any, **kw: Any) -> None:
+            if ctl.watched(path):
+                ctl.point('remove', ctl.rel(path))
+                ctl.note_touch('remove', ctl.rel(path))
+                _real_remove(path, *a, **kw)
+                ctl.owners.pop(ctl.rel(path), None)
+                ctl.done('remove', ctl.rel(path))
+            else:
+                _real_remove(path, *a, **kw)
+
+        def w_osopen(path: Any, flags: int, *a: Any, **kw: Any) -> int:
+            if not isinstance(path, int) and ctl.watched(path):
+                ctl.point('os.open', f'{ctl.rel(path)}:{flags:#x}')
+                fd = _real_osopen(path, flags, *a, **kw)
+                fds[fd] = ctl.rel(path)
+                ctl.done('os.open', ctl.rel(path))
+                return fd
+            return _real_osopen(path, flags, *a, **kw)
+
+        def w_fsync(fd: Any) -> None:
+            if fd in fds:
+                ctl.point('fsync', fds[fd])
+                _real_fsync(fd)
+                ctl.done('fsync', fds[fd])
+            else:
+                _real_fsync(fd)
+
+        def w_osclose(fd: int) -> None:
+            fds.pop(fd, None)
+            _real_osclose(fd)
+
+        self._saved = (io.open, builtins.open, os.mkdir, os.replace, os.unlink, os.rename, os.remove, os.open, os.fsync, os.close)
         io.open = w_open
         builtins.open = w_open
         os.mkdir = w_mkdir
         os.replace = w_replace
         os.unlink = w_unlink
+        os.rename = w_rename
+        os.remove = w_remove
+        os.open = w_osopen
+        os.fsync = w_fsync
+        os.close = w_osclose
         return ctl
 
     def __exit__(self, *exc: Any) -> None:
-        io.open, builtins.open, os.mkdir, os.replace, os.unlink = self._saved
+        (io.open, builtins.open, os.mkdir, os.replace, os.unlink, os.rename, os.remove, os.open, os.fsync, os.close) = self._saved
 
 
 def make_oserror(code: int) -> Callable[[], BaseException]:
